@@ -20,7 +20,7 @@ ASSUMPTIONS = [
     "strategy, efficiency, maxima, thresholds, interval, depth and schedule are the CONFIGURED values (documented defaults where not given), not the model's internal struct",
     "the day's curve-number runoff (an input of the depletion estimate) is taken from the decision's inputs; rain, days after planting, step index and yesterday's potential ET are checked against the tables / the harness's weather copy",
 ]
-BUDGET = {"quick": 320, "thorough": 6000}
+BUDGET = {"quick": 480, "thorough": 6000}
 PROFILE = gen.profile(seasons=(1, 3), max_days=1100, p_cap=0.35, p_eff=0.6, irr=((0, 1), (1, 4), (2, 3), (3, 3), (4, 2), (5, 3)),
                       p_custom_soil=0.3, p_gw=0.15, p_fm=0.3, rain=(("dry", 3), ("mid", 2), ("wet", 1)),
                       iwc=(("FC", 3), ("WP", 3), ("SAT", 1), ("Pct", 2), ("Num", 1), ("Depth", 1)))
